@@ -1,6 +1,7 @@
 extern crate iceoryx2_bb_loggers;
 mod common;
 mod c01_pubsub;
+mod c05_eventseq;
 mod c08_zcc;
 mod c11_reqres;
 mod c14_reloc;
@@ -63,6 +64,7 @@ fn main() {
         "relptr" => go!(c14_reloc::generate, || c14_reloc::RelPtrComp::new()),
         "zcc" => go!(c08_zcc::generate, || c08_zcc::ZccComp::new()),
         "resize" => go!(c15_resize::generate, || c15_resize::ResizeComp::new()),
+        "eventseq" => go!(c05_eventseq::generate, || c05_eventseq::EventSeqComp::new()),
         "alloc" => go!(c15_alloc::generate, || c15_alloc::AllocComp::new()),
         "names" => go!(c19_names::generate, || c19_names::NamesComp::new()),
         "vec" => go!(c16_vec::generate, || c16_vec::VecComp::new()),
